@@ -22,7 +22,10 @@ CAP = 600
 
 
 def cases(tier, seed):
-    return D.spec_cases(tier, seed, None, 400, 2200, "c06")
+    out = D.spec_cases(tier, seed, None, 400, 2200, "c06")
+    # appended classes of vlib/gen2.py (added after the generator freeze; see DESIGN.md 2.2)
+    from vlib import gen2
+    return out + gen2.appended(tier, seed, "c06", ['A1', 'A2', 'A4'], 54, 330)
 
 
 def run_case(case):
